@@ -148,7 +148,7 @@ const (
 // ex: "+1/3" or ex: "-2/3" use ExposureBias.UnmarshalText.
 func NewExposureBias(n int16, d int16) ExposureBias {
 	n = n << 8
-	d = d << 8 >> 8
+	d = d & 0xff
 	return ExposureBias(n + d)
 }
 
